@@ -44,7 +44,7 @@ def add_forms(rng, spec):
 
 
 def gen_params(rng, tier):
-    spec = add_forms(rng, gen.gen_spec(rng, rng.randint(0, 3)))
+    spec = add_forms(rng, gen.gen_count_sibling_spec(rng) if rng.random() < 0.15 else gen.gen_spec(rng, rng.randint(0, 3)))
     g = lambda n: [[d, w] for d, w in gen.gen_stream(rng, spec, rng.randint(0, n), gate_rate=0.05)]  # noqa: E731
     cont = g(5)
     for r in cont:
@@ -53,7 +53,9 @@ def gen_params(rng, tier):
         if not (r[1] > 0):
             r[1] = 0.0
     return {"spec": spec, "sa": g(8), "cont": cont, "reloaded": rng.random() < 0.25,
-            "np": any("q" in s for s in gen.walk(spec)) and not any(s["k"] == "Sum" for s in gen.walk(spec))}
+            "np": any("q" in s for s in gen.walk(spec)) and not any(s["k"] == "Sum" for s in gen.walk(spec)),
+            # default / scalar weights where the visit order allows it (see gen.scalar_weight_safe)
+            "npmode": rng.choice(["array", "unit", ["scalar", 2.0]]) if gen.scalar_weight_safe(spec) else "array"}
 
 
 def build(p):
@@ -78,7 +80,8 @@ def build(p):
         ops.append(("checkeq", "c", src, "clone and original diverge under identical row-wise fills"))
         if p["np"]:
             for h in ("c", src):
-                ops.append(("fillsnp", h, cont, "array"))
+                # (a shrunk tree may have left the region where scalar weights are safe: see gen.scalar_weight_safe)
+                ops.append(("fillsnp", h, cont, p.get("npmode", "array") if gen.scalar_weight_safe(gen.effective_spec(p["spec"])) else "array"))
                 expect.append(("reply", len(ops) - 1, "ok", "fill.numpy raised after the pickle round trip (on %s)" % ("the clone" if h == "c" else "the original")))
             ops.append(("checkeq", "c", src, "clone and original diverge under identical vectorised fills"))
         ops.append(("pickle", "c2", "c"))
